@@ -379,8 +379,8 @@ class NodeSuite(Suite):
                         e = ('Auth', self.gen_origin(rng, 1, False), a, now + 1, now)
                 elif j == 1 or r < 0.25:
                     now += 5
+                    e = ('LocalTick', cnt, now, self.gen_orcs(rng, busy_p))   # the first TICK carries counter 0
                     cnt += 1
-                    e = ('LocalTick', cnt, now, self.gen_orcs(rng, busy_p))
                 elif r < 0.32 and alive and rng.random() < 0.3:
                     alive.discard(j)            # j falls silent (crash / partition)
                     continue
